@@ -12,7 +12,8 @@ EXTENDS Check, TLC, Json, IOUtils
 CONSTANTS AllLens,      \* every length in this set gets pseudo-random content
           EdgeLens,     \* lengths that also get all-zero / all-FF / single-bit / walking-byte content
           BigLens,      \* a few long inputs (pseudo-random)
-          Reps          \* number of different pseudo-random contents per length
+          Reps,         \* number of different pseudo-random contents per length
+          ShaEvery      \* SHA-256 is fed in pieces for every ShaEvery-th length (always as a whole)
 
 Seed == atoi(IOEnv.SEED) % 30011
 
@@ -57,7 +58,9 @@ Plans(x) ==
         \cup {<<"crc32", i32, ps>> : ps \in Whole(n) \cup Split2(n, p) \cup Ones(n)}
         \cup {<<"crc64", <<0, 0, 0, 0>>, ps>> : ps \in Whole(n) \cup Split3(n, p)}
         \cup {<<"crc64", i64, ps>> : ps \in Whole(n) \cup Split2(n, p) \cup Ones(n)}
-        \cup {<<"sha256", <<>>, ps>> : ps \in Whole(n) \cup Split2(n, p) \cup Split3(n, p) \cup Ones(n) \cup Blocky(n)}
+        \cup {<<"sha256", <<>>, ps>> : ps \in Whole(n) \cup Ones(n)}
+        \cup (IF n % ShaEvery = 0 \/ x.kind # "lcg"
+              THEN {<<"sha256", <<>>, ps>> : ps \in Split2(n, p) \cup Split3(n, p) \cup Blocky(n)} ELSE {})
 Offset(ps, j) == FoldLeft(LAMBDA a, i : a + ps[i], 0, Iota(j))
 
 Init == \E x \in Contents :
